@@ -416,6 +416,27 @@ pub fn runs_c10(t: Tier) -> usize {
 
 /// Two encryptions by two caller threads (different master keys, or one master key and two
 /// identities), interleaved at the RNG seam in a seeded order; then both are decrypted.
+/// Many callers at once: 18 encryptions (more than a 16-way striped or sharded structure has
+/// stripes) under two master keys, each to its own recipient, one simulated caller thread each.
+/// Every ciphertext is compared with GM/T 0044.4 for the r its caller drew.
+fn c10_many_callers(p: &mut Prng, w: &mut World) {
+    let n = 18;
+    for m in ["ma", "mb"] {
+        let (k, _) = scalar_class(p, &order());
+        w.exec(set(&format!("{m}.k"), &be32(&k)));
+        w.exec(json!({"op":"sm9.master_pub","impl":"ref","kind":"enc","k":format!("{m}.k"),"pub":format!("{m}.pub")}));
+    }
+    let mut ops = vec![];
+    for j in 0..n {
+        let m = if j % 2 == 0 { "ma" } else { "mb" };
+        w.exec(set(&format!("c{j}.id"), &ascii(p, 5)));
+        w.exec(set(&format!("c{j}.msg"), &p.bytes(12)));
+        ops.push(json!({"op":"sm9.encrypt","impl":"lib","ppube":format!("{m}.pub"),"id":format!("c{j}.id"),"msg":format!("c{j}.msg"),"ct":format!("c{j}.ct"),"rng":rng_json(&uniform_script(p, 1))}));
+    }
+    w.exec(par_n(ops, &par_order_n(p, n)));
+    w.bump("history.many-callers");
+}
+
 fn c10_concurrent(p: &mut Prng, w: &mut World) {
     let same_master = p.chance(1, 3);
     let ida = sm9_id(p);
@@ -582,7 +603,11 @@ pub fn run_c10(p: &mut Prng, t: Tier, i: usize, sink: &mut Sink) {
         return;
     }
     if i >= 2 + nsess + c10_samples(t) * C10_CHUNKS {
-        c10_concurrent(p, &mut w);
+        if i % 3 == 0 {
+            c10_many_callers(p, &mut w);
+        } else {
+            c10_concurrent(p, &mut w);
+        }
         sink.done(w);
         return;
     }
